@@ -140,6 +140,7 @@ class World:
         self.kill_log = []        # every kill attempt (pid, sig, result)
         self.forks = []           # (pid, master?, mono)
         self.reaps = []           # (pid, status) in waitpid order
+        self.reaps_ctx = []       # reexec_pid of the master at each of them
         self.fs_unlinked = []     # paths unlinked through sock.close_sockets
         self.closed_listeners = []
         self.created_sockets = [] # (fds argument) per create_sockets call
@@ -161,6 +162,7 @@ class World:
         self.outcome = None       # ("exit", status) | ("crash", repr) | ("done",) | ("error", repr)
         self.events = []          # oracle-side log: (kind, ...)
         self.nlabels = 0
+        self.stopping_at = None   # number of labels executed when stop() was first entered
 
     # ---- kernel ------------------------------------------------------------------------------------
     def kid(self, pid):
@@ -201,6 +203,7 @@ class World:
             if k["st"] == "Z":
                 self.kids.remove(k)
                 self.reaps.append((k["pid"], k["status"]))
+                self.reaps_ctx.append(int(self.arbiter.reexec_pid))
                 return k["pid"], k["status"]
         return 0, 0
 
@@ -441,6 +444,8 @@ class World:
             def close_sockets(self, listeners, unlink=True):
                 saved = gsock.os
                 gsock.os = SockOs(os)
+                if world.stopping_at is None:
+                    world.stopping_at = world.nlabels
                 try:
                     world.closed_listeners.append(([l.name for l in listeners], bool(unlink)))
                     return gsock.close_sockets(listeners, unlink)
@@ -562,3 +567,57 @@ def flat(trace):
     for o in trace:
         out += o
     return out
+
+
+# ---- the canonical fair environment (mirrors Model/Arbiter.v fair_env / settle) ------------------------
+FATAL = (int(_signal.SIGTERM), int(_signal.SIGQUIT), int(_signal.SIGABRT), int(_signal.SIGINT))
+
+
+def make_settle(loops):
+    """Policy used after the scripted part of a schedule: before every master step, every running child that
+    was told to stop exits (status 0), SIGCHLD is delivered if there is a zombie, and - when the master is about
+    to sleep or to start a timeout scan - every running worker notifies.  Ends after `loops` further visits of
+    the top of the main loop."""
+    box = {"q": [], "loops": loops, "seen_top": 0}
+
+    def policy(world):
+        if box["q"]:
+            return box["q"].pop(0)
+        code = world.cur[0]
+        if code == Y_QLEN:
+            box["seen_top"] += 1
+            if box["seen_top"] > box["loops"]:
+                return None
+        if code in (Y_EXIT, Y_CRASH):
+            return None
+        q = []
+        for k in world.kids:
+            if k["st"] == "R" and any(s in FATAL for s in k["sigs"]):
+                q.append(("X", k["pid"], 0))
+        dying = set(x[1] for x in q)
+        if dying or any(k["st"] == "Z" for k in world.kids):
+            q.append(("C",))
+        if code in (Y_SELECT, Y_WITEMS):
+            for k in world.kids:
+                if k["st"] == "R" and not k["master"] and k["pid"] not in dying:
+                    q.append(("N", k["pid"]))
+        q.append(("M",))
+        box["q"] = q
+        return box["q"].pop(0)
+    return policy
+
+
+HEADER = """From Coq Require Import List ZArith.
+From GV Require Import Gen.GenArbiter Model.Arbiter.
+Import ListNotations.
+Open Scope Z_scope.
+"""
+
+
+def init_expr(cfg):
+    return "(init %d %d %d %d %d)" % (cfg["workers"], cfg["timeout"], cfg["graceful_timeout"],
+                                      int(round(0.1 * cfg.get("rand", 0.0) * TICK)), cfg.get("master_pid", 0))
+
+
+def labels_expr(labels):
+    return "[" + "; ".join(coq_label(l) for l in labels) + "]"
